@@ -280,9 +280,11 @@ func VerifControlBuilt(ctl *Control) bool {
 //verif:props C19 C14
 func verif_client_Run(ctl *Control, proxyCfgs []v1.ProxyConfigurer, visitorCfgs []v1.VisitorConfigurer) {
 	verif.Requires(VerifControlOK(ctl), "built_by_NewControl")
+	pm, vm := ctl.pm, ctl.vm
 	verif.ResetEvents()
 	ctl.Run(proxyCfgs, visitorCfgs)
-	verif.Ensures(verif.Called("go:(*github.com/fatedier/frp/client.Control).worker") && verif.CalledWith("proxy.Manager).UpdateAll", 0, ctl.pm) && verif.CalledWith("visitor.Manager).UpdateAll", 0, ctl.vm), "worker_started_configuration_applied")
+	verif.Ensures(verif.Called("go:(*github.com/fatedier/frp/client.Control).worker"), "worker_started")
+	verif.Ensures(verif.CalledWith("proxy.Manager).UpdateAll", 0, pm) && verif.CalledWith("visitor.Manager).UpdateAll", 0, vm), "configuration_applied_to_both_managers")
 }
 
 //verif:contract (*~/client.Control).GracefulClose
@@ -363,4 +365,36 @@ func verif_client_Open(c *defaultConnectorImpl) {
 		}
 		verif.Ensures(verif.CalledWith("quic-go.DialAddr", 2, verif.Ret[*tls.Config](evCfg, 0)), "quic_dialled_with_that_configuration")
 	}
+}
+
+// ---------------------------------------------------------------- C14: the re-login loop
+
+// loopLoginUntilSuccess: login attempts are paced by a back-off manager with a
+// sane option set (so never a tight loop) whose delays are capped at
+// maxInterval, and the loop ends with the service.
+//
+//verif:contract (*~/client.Service).loopLoginUntilSuccess
+//verif:props C14
+func verif_client_loopLoginUntilSuccess(svr *Service, maxInterval time.Duration, firstLoginExit bool) {
+	verif.Requires(maxInterval > 0 && svr.ctx != nil, "positive_cap_service_running")
+	verif.ResetEvents()
+	svr.loopLoginUntilSuccess(maxInterval, firstLoginExit)
+	o := verif.NthArg[wait.FastBackoffOptions](evNewMgr, 0, 0)
+	verif.Ensures(verif.CallCount(evNewMgr) == 1 && wait.VerifSaneOptions(o) && o.MaxDuration == maxInterval && o.Duration > 0, "paced_by_a_sane_capped_backoff")
+}
+
+// The step keepControllerWorking repeats after a session ended: log in again,
+// retrying for as long as it takes (never "exit on first failure", whatever the
+// configuration says about the first login), capped at 20 s between attempts,
+// and wait for that session to end.
+//
+//verif:contract (*~/client.Service).keepControllerWorking$1
+//verif:props C14
+func verif_client_relogin_step() {
+	svr := verif.FreeVar[*Service]("svr")
+	verif.Requires(svr.ctx != nil, "service_running")
+	verif.ResetEvents()
+	done, _ := verif.CallTargetR2[bool, error]()
+	verif.Ensures(!done, "the_relogin_loop_never_gives_up_by_itself")
+	verif.Ensures(verif.CallCount("Service).loopLoginUntilSuccess") == 1 && verif.CalledWith("Service).loopLoginUntilSuccess", 1, 20*time.Second) && verif.CalledWith("Service).loopLoginUntilSuccess", 2, false), "relogin_retries_until_success_capped_at_20s")
 }
